@@ -579,14 +579,18 @@ fn value_and_unit<'a>() -> impl Parser<'a, ParserInput<'a>, Literal, ParserError
     ));
 
     // Parse the integer value followed by a unit
-    parse_integer().then(unit).then_ignore(end_expr()).map(
-        |(number_str, unit_str): (&str, &str)| {
-            // Parse the number (removing underscores), defaulting to 1 if parsing fails
-            let n = number_str.replace('_', "").parse::<i64>().unwrap_or(1);
-            Literal::ValueAndUnit(ValueAndUnit {
+    parse_integer().then(unit).then_ignore(end_expr()).try_map(
+        |(number_str, unit_str): (&str, &str), span| {
+            // Parse the number (removing underscores); a number that does not
+            // fit is an error, not some other interval
+            let n = number_str
+                .replace('_', "")
+                .parse::<i64>()
+                .map_err(|_| Simple::new(None, span))?;
+            Ok(Literal::ValueAndUnit(ValueAndUnit {
                 n,
                 unit: unit_str.to_string(),
-            })
+            }))
         },
     )
 }
